@@ -305,7 +305,7 @@ register("C02", lean_modules=["FsProofs.Properties.C02MstBasicExample", "FsProof
          model_certs={"cert_mst": ("1", "spanning_tree_certificate", "the Lean checker certOk (Fs.C15.certOk_sound) rejects the raw spanning tree used by this resolver run as a minimum-weight spanning forest that keeps the virtual root edges (the tree facts assumed by Fs.C02Mst.resolve_le_of_low)")},
          rule="same scenario family as C01; oracle = independent Bellman minimax spill level; non-trivial = some node raised",
          trusted_base=FLOW_TB)
-register("C03", lean_modules=["FsProofs.Properties.ShapesC03", "FsProofs.Properties.C03", "FsProofs.Properties.C03Cons", "FsProofs.Properties.C03E2E", "FsProofs.Properties.Closed"], theorems=["Fs.Shapes.source_shape_C03", "Fs.C03.multi_accumulate_recurrence", "Fs.C03.multi_accumulate_conservation", "Fs.C03.multi_accumulate_nonneg", "Fs.C03.single_accumulate_recurrence", "Fs.C03.single_accumulate_conservation", "Fs.C03.single_accumulate_nonneg", "Fs.Closed.raster_C03_multi_conservation", "Fs.Closed.raster_C03_single_conservation", "Fs.C03.accumulate_recurrence", "Fs.C03.sweep_recurrence", "Fs.C03.accStep_get", "Fs.C03.contrib_nonneg", "Fs.C03.sweep_conservation", "Fs.C03.accumulate_conservation"],
+register("C03", lean_modules=["FsProofs.Properties.ClosedC03", "FsProofs.Properties.ShapesC03", "FsProofs.Properties.C03", "FsProofs.Properties.C03Cons", "FsProofs.Properties.C03E2E", "FsProofs.Properties.Closed"], theorems=["Fs.Closed.grid_C03_resolve", "Fs.Closed.resolve_rweight", "Fs.Shapes.source_shape_C03", "Fs.C03.multi_accumulate_recurrence", "Fs.C03.multi_accumulate_conservation", "Fs.C03.multi_accumulate_nonneg", "Fs.C03.single_accumulate_recurrence", "Fs.C03.single_accumulate_conservation", "Fs.C03.single_accumulate_nonneg", "Fs.Closed.raster_C03_multi_conservation", "Fs.Closed.raster_C03_single_conservation", "Fs.C03.accumulate_recurrence", "Fs.C03.sweep_recurrence", "Fs.C03.accStep_get", "Fs.C03.contrib_nonneg", "Fs.C03.sweep_conservation", "Fs.C03.accumulate_conservation"],
          gen=lambda r, t: gen_any_ops(r, t, acc=True), oracles=[oracle.c03], sections={"acc", "acc_overloads_agree"},
          nontrivial=has_pits_or_multi, tags=tags_flow,
          rule="routed graphs of all operator families x scalar/array sources (negative values included); exact-rational recurrence and conservation on the implementation's doubles; non-trivial = graph has a confluence or multiple receivers",
@@ -627,7 +627,7 @@ _lvl("C01", "proof",
 _lvl("C02", "proof",
      "Theorems about the executed priority flood Fs.Flow.pflood (any grid size, any elevations over a linear order with strictly increasing monotone nextUp): pflood_ge_input (never below the input), pflood_fixed (bit-identical at base-level and masked nodes), pflood_ge_spill (every closed node is reached from an unmasked base level by an unmasked-neighbour path whose input elevations never exceed its filled elevation: f >= spill level), pflood_le_spill (for every such path and every bound v on the input along it, f <= v raised by n+2 floating-point increments: f <= spill + (n+2) ulps). They are obtained from the invariant proofs on the ghost-instrumented loop (Fs.UB) through an erasure theorem (run_erase, ubInit_erase: forgetting the ghost counters turns each instrumented step into the executed step). 'closed' = reached by the flood; that all unmasked-connected nodes are closed when the loop exits by itself is pflood_complete. The spanning-tree variants (Kruskal/Boruvka x basic/carve) are modelled statement by statement, compared bit for bit and checked by the independent Bellman minimax oracle (two-sided bound, agreement of all variants) - not proved. Spanning-tree variants (C02Mst*.lean, Kruskal, carve and basic): resolve_ge_input (never below the input), resolve_fixed / _self / _above (bit-identical at base-level and masked nodes, at every self-receiver, and wherever the node was already above its new receiver's final level: terrain that already drains keeps its elevation), resolve_exact_shape / resolve_chain (every raised node is exactly t floating-point increments above the INPUT elevation of the node t links down its new flow path, t + 1 <= n: 'at most one increment per grid node'), resolve_ge_spill_carve (carve: the new flow path is an unmasked-neighbour path to a base level along which the input never exceeds the node's returned elevation: >= spill level); raster_C02_mst closes them over rasters. UPPER BOUND (C02MstUpper*.lean, Kruskal, carve AND basic): resolve_c02_upper_singleRouter - for every unmasked node y, every unmasked-neighbour path from a base level to y and every bound v on the input elevations along it, the returned elevation is at most v raised by n floating-point increments, i.e. <= (spill level)+n ulps; proof: the new flow path only visits nodes whose input is <= max(f y, passes of the tree edges above y's basin) (newpath_bounded), any neighbour path crosses basin borders at pairs at least as high as the stored lowest passes (connect_basins theorems), hence the basins are joined within weight v in the basin graph and, by the bottleneck property of the Kruskal tree (C15Bottleneck) transported along the proved orientation, every tree edge above y's basin has pass <= v (low_of_path). resolve_c02_spill_level_singleRouter states lower and upper bound together for carve. LOWER BOUND FOR BASIC (C02MstBasic*.lean): resolve_ge_spill_basic - for basic the new receiver path leaves the neighbour relation (the pit jumps to the pass node), so the witness is a different path: [witness of the outflow pass node] ++ inflow pass node ++ [old receiver path down to the pit] ++ [old path from the pit up to y, reversed], all of whose INPUT elevations are <= the returned elevation of y (induction over the depth of the basin in the oriented tree; fold_basic2 records which branch routeBasic took); resolve_ge_spill (both methods), resolve_c02_spill_level_singleRouter_any (lower and upper bound together, carve AND basic) and its closed forms raster_/mesh_/profile_C02_mst_spill_level_any (ClosedBasic.lean) with non-vacuity instances. Left to per-run certificate + oracle + agreement of all variants: Boruvka.",
      "Lean 4 loop-invariant proofs (ghost-instrumented flood + erasure to the executed definitions) + bit-exact correspondence + independent minimax-spill oracle")
-_lvl("C03", "proof",
+_lvl("C03", "proof AFTER THE SINK RESOLVER (ClosedC03.lean): grid_C03_resolve - recurrence, conservation over the terminal nodes and the lower bound also hold for accumulate on the graph the spanning-tree resolver returns (single router, Kruskal, carve or basic), on every grid with EnvOk (raster, mesh, profile instances via raster_envOk / mesh_envOk / profile_envOk), non-vacuity instances over Q.",
      "Theorems about the executed definitions Fs.Flow.accStep/accumulate instantiated over an arbitrary field: accStep_get, sweep_recurrence / accumulate_recurrence (for every graph and every sweep order - no node after one of its proper receivers, which C06 proves for the executed orders - every entry equals source*area plus the accumulated values of its donors weighted by their partition fractions; any size, single or multiple receivers), sweep_conservation / accumulate_conservation (if every non-terminal node's weights sum to one and it is not its own receiver - C05 - the sum over terminal nodes equals the source integrated over the grid), contrib_nonneg (non-negative source and weights => value >= local contribution). The Float instance of the same definitions is compared bit for bit with all four C++ overloads (which must agree with each other); rounding is covered by the exact-rational oracle with an error bound. multi_/single_accumulate_recurrence, _conservation, _nonneg (C03E2E.lean): the recurrence, conservation over terminal nodes and the lower bound for non-negative sources hold for the graphs the executed routers build, with only topology hypotheses left; raster_C03_*_conservation: Closed corollaries (Closed.lean): the topology hypotheses (neighbours in range, row width <= n_neighbors_max, symmetry with multiplicity, positive distances, slope-above-lowest on neighbour slots) are DISCHARGED for the topology `rasterTopo` the executed raster model reports, for every raster with >= 2 nodes per axis and positive spacing over any ordered field - so the statements below hold for every such raster, mask, base-level set and elevation with no hypothesis about the grid left; all their hypotheses are shown satisfiable on a concrete 3x3 instance over Q (non-vacuity).",
      "Lean 4 induction over the sweep + sum-exchange conservation proof (Mathlib List.sum) on the executed definitions + bit-exact correspondence of the four overloads + exact-rational oracle")
 _lvl("C04", "proof",
